@@ -1151,4 +1151,4 @@ func verdict(d int8) string {
 
 var prop = vkit.NewProp([]string{P}, "c16throttle", gen, run)
 
-func TestC16Throttle(t *testing.T) { prop.Check(t) }
+func TestC16Throttle(t *testing.T) { prop.CrashFile = true; prop.Check(t) }
